@@ -143,9 +143,10 @@ FullDecl(h) == [p \in 1..Len(h) + 1 |-> [lw1 |-> Dist1(Prefix(h, p - 1)), lw2 |-
 (***************************************************************************)
 NoScripts == <<>>
 Scripted == sid > 0                           \* (the constant Scripts is only read by Init: it is big)
-Rec == Depth > 0 \/ Scripted
+Rec == IF Depth > 0 THEN TRUE ELSE Scripted
 Limit == IF Scripted THEN Len(script) ELSE Depth
-More == ~Rec \/ Len(trace) <= Limit           \* trace[1] is the initial record
+\* (guards are written with IF / Cardinality: TLC would take every true disjunct or witness of a guard as a successor of its own)
+More == IF Rec THEN Len(trace) <= Limit ELSE TRUE           \* trace[1] is the initial record
 Done == Rec /\ Len(trace) = Limit + 1
 Prune == Rec /\ ~Scripted
 View(h, s) == [h |-> h, pos |-> [n \in Slots |-> s[n].pos], c1 |-> [n \in Slots |-> s[n].c1], c2 |-> [n \in Slots |-> s[n].c2]]
@@ -174,7 +175,7 @@ Step ==
 LastIs(opname) == Rec /\ trace[Len(trace)].op = opname
 \* exhaustively recorded behaviours leave out calls that cannot tell anything: gathering from / mixing registers whose
 \* slots all agree
-Varied(h, s) == ~Prune \/ \E n, m \in Slots : <<h[n], s[n]>> # <<h[m], s[m]>>
+Varied(h, s) == IF Prune THEN Cardinality({<<h[n], s[n]>> : n \in Slots}) > 1 ELSE TRUE
 ExtractP(src) ==
   /\ More /\ Varied(ph, ps)
   /\ ph' = ExH(ph, src) /\ ps' = ExS(ps, src)
@@ -190,20 +191,20 @@ ExtractQ(src) ==
           comp |-> IF LastIs("ExtractQ") THEN Compose(trace[Len(trace)].src, src) ELSE <<>>])
 \* prev = in_next (no model call)
 Take ==
-  /\ More /\ (~Prune \/ <<ph, ps>> # <<qh, qs>>)
+  /\ More /\ (IF Prune THEN <<ph, ps>> # <<qh, qs>> ELSE TRUE)
   /\ ph' = qh /\ ps' = qs
   /\ UNCHANGED <<qh, qs, sid, script>>
   /\ Log([op |-> "Take"])
 \* P := mix_by_mask(P, Q, mask), histories mixed alike
 Mix(mask) ==
-  /\ More /\ (~Prune \/ <<ph, ps>> # <<qh, qs>>)
+  /\ More /\ (IF Prune THEN <<ph, ps>> # <<qh, qs>> ELSE TRUE)
   /\ ph' = MixH(ph, qh, mask) /\ ps' = MixOf(ps, qs, mask)
   /\ UNCHANGED <<qh, qs, sid, script>>
   /\ Log([op |-> "Mix", mask |-> mask])
 \* the decoder appends a token to every history of the register that is not yet L long
-Room(h) == \E n \in Slots : Len(h[n]) < L
+Room(h) == Cardinality({n \in Slots : Len(h[n]) < L}) > 0
 Grow(h, toks) == [n \in Slots |-> IF Len(h[n]) < L THEN Append(h[n], toks[n]) ELSE h[n]]
-Canon(h, toks) == Scripted \/ \A n \in Slots : Len(h[n]) >= L => toks[n] = 0
+Canon(h, toks) == IF Scripted THEN TRUE ELSE \A n \in Slots : Len(h[n]) >= L => toks[n] = 0
 AppendP(toks) ==
   /\ More /\ Room(ph) /\ Canon(ph, toks)
   /\ ph' = Grow(ph, toks)
@@ -216,7 +217,7 @@ AppendQ(toks) ==
   /\ Log([op |-> "AppendQ", toks |-> toks])
 \* forward(P.hist, idx=None): all positions at once from a fresh state; no register changes
 Full ==
-  /\ Rec /\ More /\ (Scripted \/ ~LastIs("Full"))
+  /\ Rec /\ More /\ (IF Scripted THEN TRUE ELSE ~LastIs("Full"))
   /\ UNCHANGED <<ph, ps, qh, qs, sid, script>>
   /\ Log([op |-> "Full",
           rows |-> [n \in Slots |-> [p \in 1..Len(ph[n]) + 1 |->
